@@ -4,7 +4,8 @@ from props import element_common as ec
 NAMESPACE = 'C16'
 LEAN_TARGETS = ['MxV.Props.C16']
 THEOREMS = ['escape_text_rt', 'escape_attr_rt', 'escaped_text_has_no_markup', 'escaped_attr_has_no_quote', 'render_shift', 'subtree_alone_eq_in_parent',
-            'to_string_decodes', 'to_string_injective', 'canonical_tree_recovered']
+            'to_string_decodes', 'to_string_injective', 'canonical_tree_recovered',
+            'escape_text_injective', 'escape_attr_injective', 'escape_text_append', 'escape_attr_append']
 TRUSTED_BASE = ['Lean 4.33.0 kernel', 'axioms: propext, Quot.sound, Classical.choice only (audited per theorem)',
                 'translator extract/*.py (attribute / validator / template tables regenerated every run)',
                 'correspondence harness: real XMLElement trees vs the Lean models Element, Values, Serialize, Parser, Mfull through mxdriver',
